@@ -57,5 +57,40 @@ UNIT = {
               'text': 'proof {\n  assert(entries_self@.dom().subset_of(entries_other@.dom()));\n  vstd::set_lib::lemma_subset_equality(entries_self@.dom(), entries_other@.dom());\n}'},
          ],
          },
+        # ---------------------------------------------------------------- is_conformant
+        {'kind': 'fn', 'src': 'feel/src/types.rs', 'path': 'impl FeelType::fn is_conformant',
+         'key': 'types::FeelType::is_conformant',
+         'props': ['C16'], 'auto_props': ['C16', 'C05'],
+         'ret': 'r',
+         'attrs': '#[verifier::exec_allows_no_decreases_clause]',
+         'ensures': [('post_conf', 'r == conf(*self, *other)')],
+         'body_prefix': 'broadcast use vstd::std_specs::btree::group_btree_axioms;\nproof { axiom_name_key(); }',
+         'rewrites': [('R2', 0), ('R1', 1)],
+         'loops': 2,
+         'loop_specs': {
+             0: {
+                 'iter_name': 'it',
+                 'invariant': [
+                     ('ctx_self', '*self is Context, self->Context_0 == *entries_self'),
+                     ('ctx_other', '*other is Context, other->Context_0 == *entries_other'),
+                     ('not_equiv', '!equiv(*self, *other)'),
+                     ('seq_in_map', 'forall |j: int| 0 <= j < it.seq().len() ==> entries_other@.contains_key(*(#[trigger] it.seq()[j]).0) && entries_other@[*it.seq()[j].0] == *it.seq()[j].1'),
+                     ('map_in_seq', 'forall |kk: Name| entries_other@.contains_key(kk) ==> exists |j: int| 0 <= j < it.seq().len() && *(#[trigger] it.seq()[j]).0 == kk'),
+                     ('done_conf', 'forall |j: int| 0 <= j < it.index@ ==> entries_self@.contains_key(*(#[trigger] it.seq()[j]).0) && conf(entries_self@[*it.seq()[j].0], *it.seq()[j].1)'),
+                 ],
+                 'body_prefix': 'proof {\n  axiom_name_key();\n  assert(entries_other@.contains_key(*name) && entries_other@[*name] == *type_other);\n}',
+             },
+             1: {
+                 'invariant': [
+                     ('fn_self', '*self is Function, self->Function_0 == *parameters_self, self->Function_1 == *result_self'),
+                     ('fn_other', '*other is Function, other->Function_0 == *parameters_other, other->Function_1 == *result_other'),
+                     ('same_len', 'parameters_self.len() == parameters_other.len()'),
+                     ('not_equiv', '!equiv(*self, *other)'),
+                     ('done_conf', 'forall |j: int| 0 <= j < i ==> conf2(#[trigger] parameters_self@[j], parameters_other@[j], true)'),
+                 ],
+                 'body_prefix': 'proof { lemma_conf_flip(parameters_self@[i as int], parameters_other@[i as int]); }',
+             },
+         },
+         },
     ],
 }
